@@ -330,7 +330,7 @@ Definition prun_enc (ops : list pop) : list Z * list Z :=
 (* ======================= observer.OneShotObserverList ======================= *)
 Record oso := { o_fired : option Z; o_watchers : list Z }.
 Inductive oso_op := OWhenFired (w : Z) | OFire (r : Z).
-Inductive oso_out := OEventually (w : Z) (r : Z) | OAssert.   (* eventually(w.callback, r) / AssertionError *)
+Inductive oso_out := OEventually (w : Z) (r : Z) | OAssert | OCrash.   (* eventually(w.callback, r) / AssertionError / AttributeError *)
 
 Definition oso_step (s : oso) (o : oso_op) : oso * list oso_out :=
   match o with
@@ -342,7 +342,7 @@ Definition oso_step (s : oso) (o : oso_op) : oso * list oso_out :=
   | OFire r =>
       match o_fired s with
       | Some _ => if ob_fire_asserts_unfired then (s, [OAssert])
-                  else ({| o_fired := Some r; o_watchers := [] |}, [])
+                  else ({| o_fired := Some r; o_watchers := [] |}, [OCrash])   (* _result overwritten, then `self._watchers` is gone *)
       | None => ({| o_fired := Some r; o_watchers := [] |}, map (fun w => OEventually w r) (o_watchers s))
       end
   end.
